@@ -167,6 +167,29 @@ def _any_match(alts, pkgs):
     return any((not a.blocks) and any(a.match(q) for q in pkgs) for a in alts)
 
 
+def self_excluding(p, alts, pk):
+    """clause of package p that only another version of p's own name+slot could satisfy (a package that cannot be
+    installed together with what it requires; for build-time classes the bootstrap idiom `DEPEND="<self"`)"""
+    pos = [a for a in alts if not a.blocks]
+    if not pos:
+        return False
+    for a in pos:
+        if a.key != p.key or a.match(p):
+            return False
+        if any(a.match(q) for q in pk.values() if (q.key, q.slot) != (p.key, p.slot)):
+            return False
+    return True
+
+
+def has_self_excluding(pk):
+    for p in pk.values():
+        for cls in CLASSES:
+            for cl in p.clauses(cls):
+                if self_excluding(p, [ratom(x) for x in cl], pk):
+                    return True
+    return False
+
+
 def plan_problems(world, pk, ops):
     """All ways in which a successful plan violates the C15 contract. Returns [(bucket, message)].
 
@@ -240,13 +263,7 @@ def plan_problems(world, pk, ops):
                     continue
                 if any(_any_match(alts, [pk[x] for x in st_]) for st_ in T):
                     diag = "provider-replaced"
-                elif all(a.key == p.key and (a.slot is None or a.slot == p.slot) for a in alts if not a.blocks) and any(
-                    not a.blocks for a in alts
-                ) and all(
-                    not any(a.match(q) for q in pk.values() if (q.key, q.slot) != (p.key, p.slot))
-                    for a in alts
-                    if not a.blocks
-                ):
+                elif self_excluding(p, alts, pk):
                     diag = "own-slot"
                 elif any(
                     (not a.blocks) and any(q.key == a.key and (a.slot is None or a.slot == q.slot) for q in Sp) for a in alts
@@ -385,9 +402,11 @@ def _w(rnd, pairs):
     raise AssertionError
 
 
-def _dep_atom(rnd, names, profile, blocker=False):
+def _dep_atom(rnd, names, profile, blocker=False, own=None):
     miss = (not blocker) and rnd.randrange(30) == 0
     key = MISSING if miss else rnd.choice(names)
+    if key == own and rnd.randrange(4):
+        key = rnd.choice(names)  # dependencies on the package's own name: kept, but rarer
     if profile == "mono":
         op = _w(rnd, [("", 5), (">=", 3)])
     elif blocker:
@@ -404,21 +423,21 @@ def _dep_atom(rnd, names, profile, blocker=False):
     return s
 
 
-def _dep_clause(rnd, names, profile):
+def _dep_clause(rnd, names, profile, own=None):
     k = rnd.randrange(10)
     if k <= 1 and profile != "mono":
-        return [_dep_atom(rnd, names, profile, blocker=True)]
+        return [_dep_atom(rnd, names, profile, blocker=True, own=own)]
     if k <= 4:
         alts = []
         for _ in range(rnd.randint(2, 3)):
-            a = _dep_atom(rnd, names, profile)
+            a = _dep_atom(rnd, names, profile, own=own)
             if a not in alts:
                 alts.append(a)
         return alts
-    return [_dep_atom(rnd, names, profile)]
+    return [_dep_atom(rnd, names, profile, own=own)]
 
 
-def _pkg_deps(rnd, names, profile, density):
+def _pkg_deps(rnd, names, profile, density, own=None):
     n = _w(rnd, [(0, 3), (1, 4), (2, 3), (3, 1)]) if density else _w(rnd, [(0, 6), (1, 3), (2, 1)])
     deps = {}
     for _ in range(n):
@@ -426,7 +445,7 @@ def _pkg_deps(rnd, names, profile, density):
             cls = _w(rnd, [("RDEPEND", 4), ("PDEPEND", 2), ("DEPEND", 2), ("BDEPEND", 1), ("IDEPEND", 1)])
         else:
             cls = _w(rnd, [("RDEPEND", 4), ("DEPEND", 3), ("PDEPEND", 2), ("BDEPEND", 2), ("IDEPEND", 2)])
-        cl = _dep_clause(rnd, names, profile)
+        cl = _dep_clause(rnd, names, profile, own)
         deps.setdefault(cls, [])
         if cl not in deps[cls]:
             deps[cls].append(cl)
@@ -451,13 +470,13 @@ def gen_world(seed: int, profile="full", max_pkgs=12):
         for v in vers:
             if total >= max_pkgs:
                 break
-            d = {"cpv": f"{key}-{v}", "slot": slot_of[v], "deps": _pkg_deps(rnd, names, profile, density)}
+            d = {"cpv": f"{key}-{v}", "slot": slot_of[v], "deps": _pkg_deps(rnd, names, profile, density, key)}
             where = src2 if (two_src and rnd.randrange(3) == 0) else src
             where.append(d)
             total += 1
             if two_src and rnd.randrange(4) == 0 and total < max_pkgs:
                 other = src if where is src2 else src2  # same cpv offered by both source repositories
-                other.append({"cpv": d["cpv"], "slot": d["slot"], "deps": _pkg_deps(rnd, names, profile, density)})
+                other.append({"cpv": d["cpv"], "slot": d["slot"], "deps": _pkg_deps(rnd, names, profile, density, key)})
                 total += 1
         inst_mode = _w(rnd, [("none", 4), ("one", 5), ("perslot", 2)])
         if inst_mode != "none" and total < max_pkgs:
@@ -474,7 +493,7 @@ def gen_world(seed: int, profile="full", max_pkgs=12):
                 if same is not None and rnd.randrange(3) > 0:
                     deps = {c: [list(cl) for cl in cls] for c, cls in same["deps"].items()}
                 else:
-                    deps = _pkg_deps(rnd, names, profile, density)
+                    deps = _pkg_deps(rnd, names, profile, density, key)
                 vdb.append({"cpv": f"{key}-{v}", "slot": sl, "deps": deps})
                 total += 1
     repos = {"src": src, "vdb": vdb}
